@@ -143,6 +143,21 @@ module bmod4
       type(shape_t) :: s
     end subroutine cb2
   end interface gcb
+  abstract interface
+    subroutine acb(s)
+      !! abstract interface
+      use alib, only: shape_t
+      type(shape_t) :: s
+    end subroutine acb
+  end interface
+  interface
+    function mk(w) result(s)
+      !! explicit interface of a function returning the library's type
+      use alib
+      integer :: w
+      type(shape_t) :: s
+    end function mk
+  end interface
 end module bmod4
 """
 
@@ -377,7 +392,8 @@ def run_history(st: Stats, case):
                 st.violation("external-link-does-not-resolve-in-A", stratum, dict(feats, entity=name, problem=prob.split(" ")[0]), inp, dict(page=page, href=url, problem=prob), "a page of A documenting the entity")
         if damage is None:
             # which of A's same-named entities a page of B links to: the one of the module that page's scope uses
-            WANT = {"module/bmod3.html": ("alib3", "shape_t"), "module/bmod.html": ("alib", "shape_t"), "interface/cb.html": ("alib", "shape_t"), "interface/gcb.html": ("alib", "shape_t")}
+            WANT = {"module/bmod3.html": ("alib3", "shape_t"), "module/bmod.html": ("alib", "shape_t"), "interface/cb.html": ("alib", "shape_t"), "interface/gcb.html": ("alib", "shape_t"),
+                    "interface/acb.html": ("alib", "shape_t"), "interface/mk.html": ("alib", "shape_t")}
             if clash == "module":
                 WANT = {"module/bmod3.html": ("alib3", "shape_t")}
             got_pages = {}
